@@ -311,8 +311,8 @@ theorem ptr_field_lookup (ps : List Param) (hnd : (ps.map (·.name)).Nodup)
 /-- what the property lets one parameter contribute, as query statements -/
 def specParamOps (m : MethodSpec) (p : Param) : List QueryOp :=
   match p.kind with
-  | .scalar => if isPathParam m p.name then [] else [⟨.param p.name, aliasOf m p.name, p.ptr⟩]
-  | .struct fs | .structElsewhere fs => fs.map (fun f => ⟨fieldExpr p.name f, fieldKey f, f.ptr⟩)
+  | .scalar | .qualOther => if isPathParam m p.name then [] else [⟨.param p.name, aliasOf m p.name, p.ptr⟩]
+  | .struct fs => fs.map (fun f => ⟨fieldExpr p.name f, fieldKey f, f.ptr⟩)
   | _ => []
 
 theorem flatMap_congr_mem {β γ : Type} (l : List β) (f g : β → List γ) (h : ∀ a ∈ l, f a = g a) :
@@ -349,7 +349,6 @@ theorem queryOps_eq (m : MethodSpec) (c : Cooked)
     (hfk : ∀ p ∈ m.params, ∀ f ∈ fieldsOf p, (fieldKey f).isEmpty = false)
     (hak : (keysOf m.alias).Nodup)
     (hav : ∀ kv ∈ m.alias, kv.2.isEmpty = false)
-    (hne : ∀ p ∈ m.params, isElsewhere p = false)
     (hcook : cookParams m.verb (realParams m.alias (placeholders m.path))
       { aliasMap := m.alias.map (fun kv => (Expr.param kv.1, kv.2)) } m.params = .ok c) :
     queryOpsOf c = m.params.flatMap (specParamOps m) := by
@@ -384,11 +383,19 @@ theorem queryOps_eq (m : MethodSpec) (c : Cooked)
     have := hfk p hpm f (by rw [hfs]; exact hf)
     simp [this]
   | ctx => simp [paramExprs, specParamOps, hk]
-  | qualOther => simp [paramExprs, specParamOps, hk]
+  | qualOther =>
+    simp only [paramExprs, specParamOps, hk, realParams_eq, contains_map_any]
+    have : isPathParam m p.name = (placeholders m.path).any (fun a => resolve m (String.ofList a) == p.name) := rfl
+    rw [← this]
+    by_cases hpp : isPathParam m p.name = true
+    · simp [hpp]
+    · simp only [hpp, Bool.false_eq_true, ↓reduceIte, List.map_cons, List.map_nil, List.cons.injEq, and_true]
+      rw [ha, getKV_alias_param, hp, ptr_param_lookup m.params hnd p hpm, getKV_eq_lastOfKey_of_nodup m.alias hak]
+      have := aliasOf_eq m p.name hav
+      simp only [aliasLookup] at this
+      simp only [Expr.text]
+      congr 1
   | dict => simp [paramExprs, specParamOps, hk]
   | unsupported => simp [paramExprs, specParamOps, hk]
-  | structElsewhere fs0 =>
-    have := hne p hpm
-    simp [isElsewhere, hk] at this
 
 end ShootVerif.Rest
